@@ -127,7 +127,9 @@ class _ColorSequences:
 
         # case 2: 'color' is an (r, g, b) tuple, each compnent in range(5)
         if isinstance(color, (list, tuple)):
-            if len(color) != 3 or any(c < 0 or c > 5 for c in color):
+            if len(color) != 3 or any(
+                not isinstance(c, int) or c < 0 or c > 5 for c in color
+            ):
                 raise ValueError(
                     f"Invalid {param_name} description tuple {color}. "
                     f"Valid color description tuple should have 3 elements "
